@@ -155,7 +155,8 @@ def jobs(pid, tier):
         J.append(Job('pickle_rt', dict(N=3, L=3, NT=2, variants=['declared_other_nolevels']),
                      need_outcomes=['loaded:declared_other_nolevels']))
         jv = ['fresh_list', 'fresh_dict', 'fresh_order', 'other_order', 'other_order_load_order']
-        J.append(Job('json_rt', dict(N=3, L=2), need_outcomes=['loaded:' + v for v in jv]))
+        J.append(Job('json_rt', dict(N=3, L=2, variants=jv), need_outcomes=['loaded:' + v for v in jv]))
+        J.append(Job('json_rt', dict(N=2 if q else 3, L=2, variants=['same']), need_outcomes=['loaded:same']))
         if not q:
             J.append(Job('json_rt', dict(N=3, L=3, variants=['fresh_list', 'other_order']),
                          need_outcomes=['loaded:fresh_list', 'loaded:other_order']))
